@@ -1,5 +1,5 @@
 (* Properties_C11.v — C11: the non-negative least-squares solvers return the constrained optimum.
-   Statements only; proofs in C11_KKT_Proofs.v, C11_Proofs.v, C11_Exit_Proofs.v.
+   Statements only; proofs in C11_KKT_Proofs.v, C11_Proofs.v, C11_Exit_Proofs.v, C11_Pjv_Proofs.v, C11_LH_Proofs.v, C11_Term_Proofs.v.
 
    Vocabulary (C11_Spec.v): [spd n M] = n x n, entry-wise symmetric, v'Mv > 0 for every non-zero v;
    [kkt M b x] = x >= 0, and per component: gradient (Mx - b)_i = 0, or x_i = 0 and (Mx - b)_i >= 0;
@@ -8,7 +8,8 @@
    source tree (Generated_nnls.v); [block3_gen false] / [block3_gen true] = the same code with the exit test
    `nH2 == 0` (before the repair) / `nH2 == 0 && nH1 == 0 && full_step` (after). *)
 From Coq Require Import List ZArith Bool QArith Qcanon.
-From PS Require Import Arith Generated_nnls NnlsModel C11_Spec C11_KKT_Proofs C11_Proofs C11_Exit_Proofs.
+From PS Require Import Arith Generated_nnls NnlsModel NnlsModel2 C11_Spec C11_Spec2 C11_KKT_Proofs C11_Proofs C11_Exit_Proofs
+  C11_Pjv_Proofs C11_LH_Proofs C11_Term_Proofs.
 Import ListNotations.
 
 Section AnyOrderedField.
@@ -57,14 +58,77 @@ Theorem C11_block3_exit_kkt : forall (M : list (list K)) (b : list K),
   r_exit (block3 M b) = NormalExit ->
   kkt_tol (block3_tol (length b)) M b (r_x (block3 M b)).
 Proof. exact (block3_exit_kkt_tree A OF). Qed.
+
+(* the inner loop `while (!feasible)` terminates: the model's InnerFuel exit (fuel 2n+2 per outer pass) is unreachable.
+   Every pass that does not end the loop either shrinks the free set or (at most once between two shrinks) steps to a
+   break point, which leaves a coefficient at exactly 0 whose reduced solution is negative, so that the next pass
+   shrinks the free set. Exact arithmetic; no symmetry or definiteness needed; only hypothesis: M is n x n. *)
+Theorem C11_block3_inner_terminates : forall (M : list (list K)) (b : list K),
+  wf_mat (length b) M -> r_exit (block3 M b) <> InnerFuel.
+Proof. exact (block3_inner_terminates A OF). Qed.
+Theorem C11_block3_inner_terminates_gen : forall (solve : list nat -> option (list K)) (M : list (list K)) (b : list K) (tol : K) rep max_iter,
+  solve_ok solve M b -> wf_mat (length b) M -> r_exit (block3_run rep solve M b tol max_iter) <> InnerFuel.
+Proof. exact (fun solve M b tol rep max_iter Hs HM => block3_run_inner_terminates OF solve M b tol Hs HM rep max_iter). Qed.
+
+(* ---- the other three solvers (NnlsModel2.v) ------------------------------------------------------------------
+   [pjv_block] / [pjv_updown] = transcriptions of nnls_normal_block / nnls_normal_block_updown with the exit test, the
+   progress test, KKT_TOL, MAX_TRIALS read from the source tree; [kkt_tol2 tx tg] (C11_Spec2.v): per component, zero
+   gradient and x_i >= -tx, or x_i = 0 and gradient >= -tg. *)
+
+(* exit on `nH1 == 0 && nH2 == 0` => KKT within KKT_TOL (incl. x >= -KKT_TOL) — for the solvers AS THEY ARE IN THE TREE;
+   only hypothesis: M is n x n *)
+Theorem C11_pjv_exit_kkt_tol : forall (M : list (list K)) (b : list K),
+  wf_mat (length b) M ->
+  pr_exit (pjv_block M b) = NormalExit ->
+  kkt_tol2 pjv_tol pjv_tol M b (pr_x (pjv_block M b)).
+Proof. exact (pjv_block_exit_kkt_tree A OF). Qed.
+Theorem C11_pjv_updown_exit_kkt_tol : forall (M : list (list K)) (b : list K),
+  wf_mat (length b) M ->
+  pr_exit (pjv_updown M b) = NormalExit ->
+  kkt_tol2 pjv_tol pjv_tol M b (pr_x (pjv_updown M b)).
+Proof. exact (pjv_updown_exit_kkt_tree A OF). Qed.
+(* the same for any reduced solver that returns solutions, any tolerance, budget, MAX_TRIALS and either progress test *)
+Theorem C11_pjv_exit_kkt_gen : forall escape max_trials (solve : list nat -> option (list K))
+    (M : list (list K)) (b : list K) (tol : K) (iter_factor : nat),
+  wf_mat (length b) M -> solve_ok solve M b ->
+  pr_exit (pjv_run escape true max_trials solve M b tol iter_factor) = NormalExit ->
+  kkt_tol2 tol tol M b (pr_x (pjv_run escape true max_trials solve M b tol iter_factor)).
+Proof. exact (pjv_exit_kkt_gen A OF). Qed.
+(* a non-negative vector that is KKT within (tx, tg) is KKT within tg in the sense of C11_kkt_tol_gap *)
+Theorem C11_kkt_tol2_nonneg : forall (tx tg : K) (M : list (list K)) (b x : list K),
+  kkt_tol2 tx tg M b x -> nonneg x -> kkt_tol tg M b x.
+Proof. exact (kkt_tol2_nonneg A). Qed.
+
+(* nnls_lawson_hanson on normal equations, all coefficients constrained ([lh_normaleq]): the three "converged" exits.
+   PARTIAL. FULL statement wanted (C11_lh_exit_kkt_tol):
+       lr_exit r = LhWmax -> kkt M b (lr_x r)        for spd M, without the hypothesis [lh_skipped r = false].
+   The hypothesis says: the coefficient freed last is not back in the constrained set Z at a position >= 1 when the exit
+   is taken. It is needed because the source's search for wmax skips that entry (`last_freed != Z[i]`), so `wmax <= 0`
+   says nothing about its multiplier. That it cannot happen for positive definite systems in exact arithmetic (the
+   objective decreases strictly inside the inner loop) is not proved; the check evaluates [lh_skipped] on every model run
+   and the corresponding condition on every trace of the real solver (0 observed). *)
+Theorem C11_lh_exit_kkt_tol_partial : forall (M : list (list K)) (b : list K) (tolerance : K) (min_iterations max_iterations : nat),
+  wf_mat (length b) M ->
+  let r := lh_normaleq M b tolerance min_iterations max_iterations in
+  lh_skipped r = false ->
+  ((lr_exit r = LhAllPassive \/ lr_exit r = LhWmax) -> kkt M b (lr_x r)) /\
+  (lr_exit r = LhTol -> kkt_tol tolerance M b (lr_x r)).
+Proof. exact (lh_exit_kkt_normaleq A OF). Qed.
 End AnyOrderedField.
+
+(* the PJV loops make at most 3*nvar passes (and exactly that many when they fall out silently) *)
+Theorem C11_pjv_terminates : forall (A : Arith) (M : list (list (T A))) (b : list (T A)),
+  ((pr_iters (pjv_block M b) <= pjv_iter_factor * length b)%nat /\
+   (pr_exit (pjv_block M b) = MaxIter -> pr_iters (pjv_block M b) = (pjv_iter_factor * length b)%nat)) /\
+  ((pr_iters (pjv_updown M b) <= pjv_iter_factor * length b)%nat /\
+   (pr_exit (pjv_updown M b) = MaxIter -> pr_iters (pjv_updown M b) = (pjv_iter_factor * length b)%nat)).
+Proof. exact (fun A M b => conj (pjv_block_iters A M b) (pjv_updown_iters A M b)). Qed.
 
 (* termination: the outer loop makes at most max_iter passes (and exactly max_iter when it gives up);
    each pass makes at most [fuel] = 2n+2 reduced solves before the model reports InnerFuel.
-   PARTIAL: that the InnerFuel exit is unreachable (every repeated pass of `while (!feasible)` either binds a
-   coefficient — neg_set_nonempty — or strictly reduces the residual) is not proved; the check counts such
-   exits of the model on every generated case (0 observed).
-   FULL statement wanted:  r_exit (block3 M b) <> InnerFuel  for spd M. *)
+   That the InnerFuel exit is unreachable is C11_block3_inner_terminates above (the name _partial is kept for the
+   references to it): together, the model of nnls_normal_block3 always terminates, with at most
+   max_iter * (2n+2) reduced solves. *)
 Theorem C11_block3_terminates_partial : forall (A : Arith) (M : list (list (T A))) (b : list (T A)),
   (r_iters (block3 M b) <= block3_max_iter)%nat /\
   (r_exit (block3 M b) = MaxIter -> r_iters (block3 M b) = block3_max_iter).
@@ -96,6 +160,18 @@ Example C11_example_maxiter_exit_is_unprotected :
   let r := @block3_run QcA true (@solve_checked QcA W1_M W1_b) W1_M W1_b (@block3_tol QcA 3) 1 in
   r_exit r = MaxIter /\ @kkt_check QcA (@block3_tol QcA 3) W1_M W1_b (r_x r) = false.
 Proof. exact maxiter_exit_not_kkt. Qed.
+(* P8: a symmetric 8 x 8 system (8 > MAX_TRIALS: the first pass is a block switch of 5 coefficients, then Murty's method):
+   both PJV solver models exit normally with the exact optimum (= nnls_spec, exact KKT), free set neither empty nor full *)
+Example C11_example_pjv_exit :
+  pjv_example_ok (@pjv_block QcA P8_M P8_b) = true /\ pjv_example_ok (@pjv_updown QcA P8_M P8_b) = true /\
+  @wf_mat QcA (length P8_b) P8_M.
+Proof. exact (conj pjv_block_example (conj pjv_updown_example P8_wf)). Qed.
+(* Lawson-Hanson model: exit on wmax <= 0 with the exact optimum, lh_skipped = false, on W1, P8 and on L3 where the inner
+   loop binds a coefficient again (one LvBind event) *)
+Example C11_example_lh_exit :
+  lh_example_ok W1_M W1_b true 0 = true /\ lh_example_ok P8_M P8_b true 0 = true /\ lh_example_ok L3_M L3_b true 1 = true /\
+  @wf_mat QcA (length L3_b) L3_M /\ @wf_mat QcA (length W1_b) W1_M.
+Proof. exact (conj lh_example_W1 (conj lh_example_P8 (conj lh_example_L3 (conj L3_wf W1_wf)))). Qed.
 Example C11_example_ofZ_two : @ofZ QcA 2 = @add QcA one one.
 Proof. exact QcA_ofZ_two. Qed.
 
@@ -110,3 +186,11 @@ Print Assumptions C11_block3_exit_kkt.
 Print Assumptions C11_block3_terminates_partial.
 Print Assumptions C11_block3_inner_bound.
 Print Assumptions C11_block3_old_exit_kkt_refuted.
+Print Assumptions C11_pjv_exit_kkt_tol.
+Print Assumptions C11_pjv_updown_exit_kkt_tol.
+Print Assumptions C11_pjv_exit_kkt_gen.
+Print Assumptions C11_kkt_tol2_nonneg.
+Print Assumptions C11_lh_exit_kkt_tol_partial.
+Print Assumptions C11_pjv_terminates.
+Print Assumptions C11_block3_inner_terminates.
+Print Assumptions C11_block3_inner_terminates_gen.
